@@ -24,76 +24,106 @@ def streaming_loop(repo):
 
 
 def field_count_gate(repo, chk, oid):
-    """A parsed row is appended to the batch buffer iff len(row) == len(column_descriptions); otherwise it is counted invalid."""
-    fn, loop, pcall = streaming_loop(repo)
-    par = parents(fn.node)
-    st = par.get(pcall)
-    while st is not None and not isinstance(st, ast.stmt):
-        st = par.get(st)
-    if not (isinstance(st, ast.Assign) and isinstance(st.targets[0], ast.Name)):
-        chk.unsure(oid, 'R3', fn.site(pcall), ast.unparse(pcall)[:80], 'parsed row is not bound to a local name')
+    """A parsed row is appended to the batch buffer iff len(row) == len(column_descriptions); otherwise it is counted invalid.
+    Decided on the path model of one loop iteration (StreamModel).  Returns the set of buffer names."""
+    from ..terms import walk_term
+    S = stream_model(repo)
+    fn, loop, pcall = S.fn, S.loop, S.pcall
+    header = S.header
+    if S.paths is None:
+        chk.unsure(oid, 'R3', fn.site(loop), 'streaming loop', 'too many tests in the loop body to evaluate one iteration path by path')
         return None
-    row = st.targets[0].id
-    header = fn.params[1]
-    skips = [x for x in ast.walk(loop) if isinstance(x, (ast.Continue, ast.Break))]
-    allowed = []
-    for n in loop.body:
-        if isinstance(n, ast.If) and '%' in ast.unparse(n.test) and 'subsampling' in ast.unparse(n.test):
-            allowed += [x for x in ast.walk(n) if isinstance(x, ast.Continue)]
-    extra = [x for x in skips if x not in allowed]
-    chk.expect(not extra, oid + 's', 'R1', fn.site(extra[0]) if extra else fn.site(loop), f'{len(skips)} continue/break in the streaming loop, {len(allowed)} of them the subsampling rule', 'every selected line reaches the parser and the field-count test',
-               'the streaming loop skips lines (continue/break) other than by the subsampling rule, e.g. a pre-check on the raw line: well-formed rows (such as CSV rows with quoted delimiters) never reach the parser and are dropped')
-    pa = [ast.unparse(a) for a in pcall.args]
-    lv = loop.target.id if isinstance(loop.target, ast.Name) else None
-    ok_roles = len(pa) >= 5 and pa[0] == lv and pa[1] in fn.params and pa[3] in fn.params and 'map' in pa[3] and pa[4] == header
+    # roles of the parser call
+    pa = [ast.unparse(a) for a in pcall.args] + [f'{k.arg}={ast.unparse(k.value)}' for k in pcall.keywords]
+    target = repo.func(CU_MOD, 'generic_line_parser')
+    from ..match import bind_args
+    ba = bind_args(pcall, target)
+    tp = target.params
+    ok_roles = len(tp) >= 5 and isinstance(ba.get(tp[0]), ast.Name) and ba[tp[0]].id == S.line and all(isinstance(ba.get(tp[i]), ast.Name) and ba[tp[i]].id in fn.params for i in (1, 2, 3, 4)) \
+        and 'map' in ba[tp[3]].id and ba[tp[4]].id == header
     chk.expect(ok_roles, oid + 'p', 'R6', fn.site(pcall), ast.unparse(pcall)[:120], 'the parser receives (line, delimiter, args, namespace map, header) in their roles',
                'generic_line_parser must be called with the current line first, then the delimiter, args, the namespace map and the header')
-    # the parsed row must reach the gate and the buffer exactly as the parser returned it
-    from ..match import MUTATORS
-    touch = []
-    for n in ast.walk(loop):
-        if n is st:
+    buffers = set()
+    extra_skip = None
+    gate_bad, gate_ok, unsure = [], 0, []
+    inv_bad = None
+    touched = None
+    for p in S.paths:
+        res = p.res
+        if res.unknown is not None:
+            unsure.append((res.unknown, 'statement outside the path vocabulary'))
             continue
-        if isinstance(n, (ast.Assign, ast.AugAssign, ast.AnnAssign)):
-            tgs = n.targets if isinstance(n, ast.Assign) else [n.target]
-            for t in tgs:
-                base = t
-                while isinstance(base, (ast.Subscript, ast.Attribute)):
-                    base = base.value
-                if isinstance(base, ast.Name) and base.id == row:
-                    touch.append(n)
-        if isinstance(n, ast.Call) and isinstance(n.func, ast.Attribute) and isinstance(n.func.value, ast.Name) and n.func.value.id == row and n.func.attr in MUTATORS:
-            touch.append(n)
-    chk.expect(not touch, oid + 'r', 'origin', fn.site(touch[0]) if touch else fn.site(st), ast.unparse(touch[0])[:120] if touch else f'{row} = generic_line_parser(...)',
+        decisions = []
+        for t, truth, node in p.tests:
+            sd = S.subsampling_decision(t, truth)
+            fd = S.field_count_decision(t, truth)
+            decisions.append(('sub', sd[0]) if sd else (('fc', fd) if fd is not None else ('other', (t, truth, node))))
+        reached = p.mentions(S.parse)
+        others_before = []
+        for d in decisions:
+            if d[0] == 'fc':
+                break
+            if d[0] == 'other':
+                others_before.append(d[1])
+        fc = [d[1] for d in decisions if d[0] == 'fc']
+        # the row as the parser returned it: tests / calls that look at a modified row
+        for t, c in p.calls:
+            if c['call'].func.attr in ('append', 'extend', 'insert', 'appendleft') if isinstance(c['call'].func, ast.Attribute) else False:
+                a0 = t[2][0] if len(t) > 2 and t[2] else None
+                if a0 is not None and a0 != S.parse and any(x == S.parse for x in walk_term(a0)) and not (a0[0] == 'call' and a0[1] in (('name', 'str'), ('name', 'repr'))):
+                    touched = touched or c['node']
+        for t, truth, node in p.tests:
+            ln_mod = [x for x in walk_term(t) if isinstance(x, tuple) and x[:2] == ('call', ('name', 'len')) and x[2] and x[2][0] != S.parse and any(y == S.parse for y in walk_term(x[2][0]))]
+            if ln_mod:
+                touched = touched or node
+        if not fc:
+            # a path on which the field count is never tested
+            if res.ended in ('continue', 'break') and not reached:
+                subs = [d for d in decisions if d[0] == 'sub']
+                if others_before or not (subs and subs[-1][1] == 'skip'):
+                    extra_skip = extra_skip or (others_before[0][2] if others_before else loop)
+                continue
+            if res.ended in ('continue', 'break'):
+                extra_skip = extra_skip or (others_before[0][2] if others_before else loop)
+                continue
+            appended = [c for t, c in p.calls if isinstance(c['call'].func, ast.Attribute) and c['call'].func.attr in ('append', 'extend', 'insert') and t[2] and t[2][0] == S.parse]
+            if appended:
+                gate_bad.append((appended[0]['node'], [ast.unparse(n)[:60] for _, _, n in p.tests]))
+            continue
+        if others_before and res.ended in ('continue', 'break') and not any(d[0] == 'fc' for d in decisions):
+            extra_skip = extra_skip or others_before[0][2]
+        valid = fc[0]
+        appended = [c for t, c in p.calls if isinstance(c['call'].func, ast.Attribute) and c['call'].func.attr in ('append', 'extend', 'insert') and t[2] and t[2][0] == S.parse and isinstance(c['call'].func.value, ast.Name)]
+        if valid:
+            if len(appended) == 1:
+                buffers.add(appended[0]['call'].func.value.id)
+                gate_ok += 1
+            elif not appended and res.ended not in ('continue', 'break'):
+                unsure.append((p.tests[-1][2] if p.tests else loop, 'a well-formed row is not appended to a buffer on this path'))
+            elif not appended:
+                extra_skip = extra_skip or p.tests[-1][2]
+        else:
+            if appended:
+                gate_bad.append((appended[0]['node'], [ast.unparse(n)[:60] for _, _, n in p.tests]))
+            # counted as invalid: some plain counter is raised by exactly 1
+            incs = [k for k, v in (res.env or {}).items() if v is not None and isinstance(v, ast.BinOp) and isinstance(v.op, ast.Add) and isinstance(v.left, ast.Name) and v.left.id == k and isinstance(v.right, ast.Constant) and v.right.value == 1
+                    and not any(S.subsampling_decision(t, tr) and any(x == ('name', k) for x in walk_term(t)) for t, tr, _ in p.tests)]
+            if not incs:
+                inv_bad = inv_bad or (p.tests[-1][2] if p.tests else loop)
+    chk.expect(extra_skip is None, oid + 's', 'R1', fn.site(extra_skip) if extra_skip is not None else fn.site(loop), f'{len(S.paths)} paths through one iteration', 'every selected line reaches the parser and the field-count test',
+               'the streaming loop skips lines (continue/break) other than by the subsampling rule, e.g. a pre-check on the raw line: well-formed rows (such as CSV rows with quoted delimiters) never reach the parser and are dropped')
+    chk.expect(touched is None, oid + 'r', 'origin', fn.site(touched) if touched is not None else fn.site(pcall), ast.unparse(touched)[:120] if touched is not None else 'row = generic_line_parser(...)',
                'the row is used exactly as the parser returned it (no padding, truncation or re-binding before the field-count test)',
                'the parsed row is modified (padded / truncated / re-bound) between the parser and the field-count test: a line with the wrong number of fields is accepted with shifted columns instead of being rejected as a whole')
-    appends = [c for c in ast.walk(loop) if isinstance(c, ast.Call) and isinstance(c.func, ast.Attribute) and c.func.attr in ('append', 'extend', 'insert', 'appendleft')
-               and any(isinstance(a, ast.Name) and a.id == row for a in c.args)]
-    if not appends:
-        chk.bad(oid, 'R3', fn.site(loop), f'{row} appended to the batch buffer', 'parsed rows never reach the batch buffer')
-        return None
-    cfg = CFG(fn.node)
-    want = [('cmp', '==', a, b) for a, b in [(('call', ('name', 'len'), (('name', row),), ()), ('call', ('name', 'len'), (('name', header),), ()))]]
-    want = want + [('cmp', '==', w[3], w[2]) for w in want]
-    buffers = set()
-    for ap in appends:
-        node = cfg.containing(ap)
-        guards = [n for n in cfg.nodes if n.kind == 'branch' and n.test is not None and n.ast is not loop and cfg.dominates(n.id, node.id)
-                  and any(x is n.ast for x in ast.walk(loop))]
-        ok = False
-        seen = []
-        for g in guards:
-            t = term_of(fn, g.test, inline=False)
-            seen.append(show(t))
-            if g.polarity is True and t in want:
-                ok = True
-            if g.polarity is False and t[0] == 'cmp' and t[1] == '!=' and ('cmp', '==', t[2], t[3]) in want:
-                ok = True
-        relevant = [s for s in seen if row in s]
-        if isinstance(ap.func.value, ast.Name):
-            buffers.add(ap.func.value.id)
-        chk.expect(ok, oid, 'R3', fn.site(ap), ast.unparse(ap), 'row enters the batch only under len(row) == len(header)',
-                   f'a parsed row must be appended only when len(row) == len(column_descriptions); guards found: {relevant or "none"} - a row with the wrong field count would be shifted into other columns')
+    for node, why in unsure[:2]:
+        chk.unsure(oid, 'R3', fn.site(node), ast.unparse(node)[:80] if isinstance(node, ast.AST) else 'streaming loop', why)
+    for node, tests in gate_bad[:2]:
+        chk.bad(oid, 'R3', fn.site(node), ast.unparse(node)[:100], f'a parsed row must be appended only when len(row) == len(column_descriptions); tests decided on this path: {tests or "none"} - a row with the wrong field count would be shifted into other columns')
+    if not gate_bad and gate_ok:
+        chk.ok(oid, 'R3', fn.site(pcall), f'{gate_ok} path(s) append the row, all under len(row) == len({header})', 'row enters the batch only under len(row) == len(header)')
+    elif not gate_bad and not unsure:
+        chk.bad(oid, 'R3', fn.site(loop), 'row appended to the batch buffer', 'parsed rows never reach the batch buffer')
+    chk.expect(inv_bad is None, oid + 'c', 'R13', fn.site(inv_bad) if inv_bad is not None else fn.site(loop), 'invalid_lines += 1 on the rejecting path', 'rows with a wrong field count are counted', 'a row with a wrong field count must be counted as invalid (and skipped)')
     return buffers
 
 
@@ -505,3 +535,110 @@ def column_coding(repo, fn, frame_expr):
     if v in [P(x) for x in fu]:
         return 'factorize', show(v)[:100]
     return 'unknown', f'column coding not recognised: {show(v)[:120]}'
+
+
+# ---------------------------------------------------------------------------------------------
+# model of the streaming loop of estimate_importances_minibatches: one iteration as a set of paths
+# ---------------------------------------------------------------------------------------------
+CU_MOD = 'outrank.core_utils'
+
+
+class StreamPath:
+    def __init__(self, model, assume, res):
+        self.model, self.assume, self.res = model, assume, res
+        fn = model.fn
+        self.tests = [(term_of(fn, t, inline=True), v, t) for t, v in res.assumed]
+        self.calls = [(term_of(fn, c['call'], inline=True), c) for c in res.calls]
+
+    def describe(self):
+        return ', '.join(f'{ast.unparse(t)[:50]} is {v}' for t, v in self.res.assumed) or '(no test)'
+
+    def mentions(self, term):
+        from ..terms import walk_term
+        pools = [t for t, _, _ in self.tests] + [t for t, _ in self.calls] + [term_of(self.model.fn, v, inline=True) for v in (self.res.env or {}).values() if v is not None]
+        return any(x == term for p in pools for x in walk_term(p))
+
+
+class StreamModel:
+    """One iteration of `for line in stream` evaluated path by path (every test forked, assignments substituted): which tests decide
+    that a line is skipped, rejected, buffered, and when a batch is scored."""
+
+    def __init__(self, repo):
+        from ..match import run_paths, expected_term
+        from ..terms import walk_term
+        self.repo = repo
+        self.fn, self.loop, self.pcall = streaming_loop(repo)
+        fn, loop = self.fn, self.loop
+        self.m = fn.module
+        self.header = fn.params[1]
+        self.args = 'args' if 'args' in fn.params else fn.params[5]
+        E = lambda src: expected_term(self.m, src)
+        self.E = E
+        # the line variable and a possible enumerate counter
+        self.line, self.enum_counter, self.enum_start = None, None, None
+        it = loop.iter
+        if isinstance(loop.target, ast.Name):
+            self.line = loop.target.id
+            self.stream = it
+        elif isinstance(loop.target, ast.Tuple) and len(loop.target.elts) == 2 and all(isinstance(x, ast.Name) for x in loop.target.elts) and isinstance(it, ast.Call) and isinstance(it.func, ast.Name) and it.func.id == 'enumerate' and it.args:
+            self.enum_counter, self.line = loop.target.elts[0].id, loop.target.elts[1].id
+            self.stream = it.args[0]
+            st = it.args[1] if len(it.args) > 1 else next((k.value for k in it.keywords if k.arg == 'start'), ast.Constant(0))
+            self.enum_start = st.value if isinstance(st, ast.Constant) else None
+        else:
+            self.stream = it
+        raw = run_paths(fn, None, None, 10, body=loop.body)
+        self.paths = [StreamPath(self, a, r) for a, r in raw] if raw is not None else None
+        self.parse = term_of(fn, self.pcall, inline=True)
+        self.sub = E(f'{self.args}.subsampling')
+
+    # -- classification of decided tests ---------------------------------------------------
+    def subsampling_decision(self, t, truth):
+        """('skip'|'keep', counter term) when t is a test of <counter> % args.subsampling, else None"""
+        def mod_of(x):
+            return x[1] if isinstance(x, tuple) and x and x[0] == '%' and x[2] == self.sub else None
+        if t[0] == 'cmp' and t[1] in ('!=', '==') and ('num', 0) in (t[2], t[3]):
+            c = mod_of(t[3] if t[2] == ('num', 0) else t[2])
+            if c is not None:
+                skip = (t[1] == '!=') == truth
+                return ('skip' if skip else 'keep', c)
+        if t[0] == 'cmp' and t[1] == '<' and t[2] == ('num', 0):
+            c = mod_of(t[3])
+            if c is not None:
+                return ('skip' if truth else 'keep', c)
+        c = mod_of(t)
+        if c is not None:
+            return ('skip' if truth else 'keep', c)
+        if t[0] == 'not':
+            c = mod_of(t[1])
+            if c is not None:
+                return ('keep' if truth else 'skip', c)
+        return None
+
+    def field_count_decision(self, t, truth):
+        """True (row has the header's number of fields) / False / None when t is not the field-count test"""
+        ln = lambda x: ('call', ('name', 'len'), (x,), ())
+        a, b = ln(self.parse), ln(('name', self.header))
+        if t[0] == 'cmp' and t[1] in ('==', '!=') and {t[2], t[3]} == {a, b}:
+            return (t[1] == '==') == truth
+        return None
+
+    def trigger_decision(self, t, truth, buf):
+        ln = ('call', ('name', 'len'), (('name', buf),), ())
+        mb = self.E(f'{self.args}.minibatch_size')
+        if t == ('cmp', '<=', mb, ln):
+            return truth
+        if t == ('cmp', '<', ln, mb):
+            return not truth
+        return None
+
+
+_STREAM_CACHE = {}
+
+
+def stream_model(repo) -> StreamModel:
+    k = id(repo)
+    if k not in _STREAM_CACHE:
+        _STREAM_CACHE.clear()
+        _STREAM_CACHE[k] = StreamModel(repo)
+    return _STREAM_CACHE[k]
